@@ -68,7 +68,8 @@ def read_client_conf():
         'tpm': Platform().default_tpm_scheme()
     }
     if path:
-        parser = ConfigParser()
+        # Values are taken literally: a '%' (IPv6 zone id, path name) is not an interpolation marker
+        parser = ConfigParser(interpolation=None)
         text = '[DEFAULT]\n'
         with open(path) as f:
             text += f.read()
